@@ -324,6 +324,54 @@ def enumerate_cases(tier, seed=0):
                         plist.append([[a, b], [c, d]])
         plist += [[[big[0], big[1]], [R - big[0], big[1]]], [[big[0], big[1]], [big[0] * big[1] % R, R - 1]],
                   [[1, 1], [2, 2], [3, 3], [R - 14, 1]], [[1, 1], [2, 2], [3, 3], [R - 13, 1]]]
-    heavy = [[dict(k='pairing', pairs=p)] for p in plist]
+    plist += infinity_position_lists(thorough)
+    seen_l, uniq = set(), []
+    for p in plist:
+        key = repr(p)
+        if key not in seen_l:
+            seen_l.add(key)
+            uniq.append(p)
+    # the real PAIRING_CHECK costs ~0.4 s per non-infinity pair (py_ecc): most expensive lists first, one list per chunk
+    uniq.sort(key=lambda p: -sum(1 for a, b in p if a % R and b % R))
+    heavy = [[dict(k='pairing', pairs=p)] for p in uniq]
     chunks = heavy + [light[i:i + 60] for i in range(0, len(light), 60)]
     return chunks
+
+
+def infinity_position_lists(thorough):
+    """Lists of length 1..3 (4 in thorough) over pairs built from the multiples {0 (infinity), 1, 2, -1} of the generators with an
+    infinity pair at EVERY position, preceded / followed by pairs that do and do not change the verdict.  The oracle is the
+    bilinearity rule (sum a_i*b_i = 0 mod r), so any number of lists could be judged; the deterministic selection below bounds the
+    number of real pairings.  A loop that stops, skips one pair too many or too few at an infinity pair changes the verdict of
+    at least one of these lists."""
+    P1, N1, P2, Q2, QN = [1, 1], [R - 1, 1], [2, 1], [1, 2], [1, R - 1]
+    infs = [[0, 1], [1, 0], [0, 0], [0, 2], [R - 1, 0]]
+    out = [[[a, b]] for a in (0, 1, 2, R - 1) for b in (0, 1, 2, R - 1)]           # length 1: every pair of the domain
+    main_infs = infs if thorough else infs[:2]
+    for I in infs:
+        out += [[I, P1], [P1, I], [I, I]]                                                # infinity first / last, verdict set by the other pair
+    out += [[infs[0], infs[1]], [infs[1], infs[2]]]
+    for I in main_infs:
+        # length 3, infinity at position 0, 1, 2; completions with product one (True) and not one (False)
+        for ok_pair in ([P1, N1], [P2, [R - 2, 1]] if thorough else [P1, N1]):
+            x, y = ok_pair
+            out += [[I, x, y], [x, I, y], [x, y, I]]
+        for bad_pair in ([P1, P1], [P1, P2] if thorough else [P1, P1]):
+            x, y = bad_pair
+            out += [[I, x, y], [x, I, y], [x, y, I]]
+        out += [[I, I, P1], [I, P1, I], [P1, I, I], [I, I, I]]
+    # G2-side negation and mixed sides around an infinity pair
+    out += [[Q2, infs[1], [R - 2, 1]], [Q2, infs[0], QN], [infs[2], Q2, [R - 2, 1]]]
+    if thorough:
+        pool = [[0, 1], [1, 0], P1, N1, P2, Q2]
+        for x in pool:
+            for y in pool:
+                for z in pool:
+                    out.append([x, y, z])
+        for I in infs[:2]:
+            for pos in range(4):
+                for rest in ([P1, N1, P1], [P1, N1, [0, 1]], [P1, P2, [R - 3, 1]], [P2, N1, N1]):
+                    l = list(rest)
+                    l.insert(pos, I)
+                    out.append(l)
+    return out
